@@ -468,7 +468,8 @@ impl Property for Valid {
             .args
             .iter()
             .filter(|a| !a.action.takes_values() && !a.is_positional())
-            .filter_map(|a| a.short)
+            // primary shorts and short aliases, visible or hidden (the real parser accepts them all in a cluster)
+            .flat_map(|a| a.short.into_iter().chain(a.short_aliases.iter().map(|x| x.0)))
             .collect();
         let word = match t.weighted(&[3, 2, 2, 5, 2, 1]) {
             0 => String::new(),
